@@ -956,13 +956,24 @@ pub fn run(cfg: RunConfig, main: Box<dyn FnOnce() + Send>) -> RunResult {
 
     // Wait for completion or failure.
     let mut st = sim.lock();
-    let deadline = std::time::Instant::now() + cfg.watchdog;
+    // The watchdog is about *no scheduling point reached*, not about the
+    // run's total duration (which the step budget bounds): as long as steps
+    // are being taken — however slowly, on an overloaded machine — the
+    // deadline moves on.
+    let mut deadline = std::time::Instant::now() + cfg.watchdog;
+    let mut steps_seen = st.steps;
     loop {
         if st.finished || st.failure.is_some() {
             break;
         }
         let now = std::time::Instant::now();
         if now >= deadline {
+            let steps_now = st.steps;
+            if steps_now != steps_seen {
+                steps_seen = steps_now;
+                deadline = now + cfg.watchdog;
+                continue;
+            }
             st.failure = Some(Failure::Watchdog);
             break;
         }
